@@ -29,7 +29,7 @@ Geoms ==
     Geo(0, << <<0, 1>> >>, 2, 3, 1, 3),
     Geo(-1, << <<0, 0>>, <<0, 1>>, <<0, 0>> >>, 2, 2, 3, 1),
     Geo(-1, << <<0, 1>>, <<0, 2>>, <<0, 0>> >>, 2, 2, 1, 2),        \* asymmetric axial sizes 2/3/1
-    Geo(-1, << <<0, 1>>, <<0, 2>>, <<0, 1>>, <<0, 0>> >>, 2, 2, 1, 1),   \* asymmetric segment range -1..2
+    Geo(-1, << <<0, 1>>, <<0, 2>>, <<0, 1>>, <<0, 0>> >>, 2, 2, 1, 2),   \* 4 segments, asymmetric range -1..2, pairs of requests
     Geo(-2, << <<0, 0>>, <<0, 1>>, <<0, 2>>, <<0, 1>>, <<0, 0>> >>, 2, 1, 1, 1),  \* 5 segments: 120 permutations
     Geo(-1, << <<1, 1>>, <<0, 2>>, <<1, 1>> >>, 2, 2, 3, 1),        \* TOF, axial ranges not starting at 0
     Geo(0, << <<0, 1>>, <<0, 0>> >>, 2, 2, 3, 2),                   \* TOF, segments 0..1, pairs of requests
@@ -43,7 +43,8 @@ Depth == g.d
 Val(i) == (cnt + 1) * 100 + i
 Vals(n) == [i \in 1..n |-> Val(i)]
 
-Init == /\ g \in Geoms /\ L \in Layouts(g) /\ fresh \in BOOLEAN
+Init == /\ g \in Geoms /\ L \in Layouts(g)
+        /\ fresh \in (IF Len(g.ax) >= 4 THEN {FALSE} ELSE BOOLEAN)     \* (growing streams: geometries up to 3 segments)
         /\ posT = [b \in Bins(g) |-> Pos(g, L, b)]
         /\ store = [b \in Bins(g) |-> 0]
         /\ file = IF fresh THEN <<>> ELSE [i \in 1..NumBins(g) |-> 0]
